@@ -108,7 +108,15 @@ pub fn structured(r: &mut Rg, bytes: &[u8], marks: &[Mark]) -> Option<(Vec<u8>, 
     match m.kind {
         Kind::Cs => {
             let (n, w) = read_cs(&bytes[m.off..])?;
-            match r.gen_range(0..4) {
+            match r.gen_range(0..5) {
+                4 => {
+                    // nine-byte form whose low 32 (or 16) bits are the true count and whose high bits are not zero
+                    let hi: u64 = *crate::gen::pick(r, &[1u64 << 32, 1 << 33, 0xffff_ffff_0000_0000, 1 << 16, 1 << 63]);
+                    let mut enc = vec![0xffu8];
+                    enc.extend_from_slice(&(n.wrapping_add(hi)).to_le_bytes());
+                    out.splice(m.off..m.off + w, enc);
+                    Some((out, "cs-high-bits"))
+                }
                 0 | 1 => {
                     // non-minimal re-encoding in each wider width
                     let widths: Vec<usize> = [3usize, 5, 9].iter().cloned().filter(|x| *x > w).collect();
